@@ -85,12 +85,20 @@ def _is_constant_name(name: str) -> bool:
 def _get_value_string(value: ast.expr) -> str | None:
     """Get string representation of a value expression."""
     if isinstance(value, ast.Constant):
-        return repr(value.value)
+        return _constant_repr(value.value)
     if isinstance(value, ast.Name):
         return value.id
     if isinstance(value, ast.Call):
         return _call_to_string(value)
     return CONTAINER_REPRESENTATIONS.get(type(value))
+
+
+def _constant_repr(constant: object) -> str:
+    """repr() of a literal; an int beyond Python's int -> str digit limit is shown in hexadecimal."""
+    try:
+        return repr(constant)
+    except ValueError:
+        return hex(constant) if isinstance(constant, int) else "<literal>"
 
 
 def _call_to_string(node: ast.Call) -> str:
